@@ -52,12 +52,12 @@ Definition run_model (tr : transport) (k : kind) (timeout : Z) (n : tnet) : res 
   let sd := match tr with TUdp => udp_set_dl | _ => tcp_set_dl end in
   let rd := match tr with TUdp => udp_read | _ => tcp_read end in
   match k with
-  | KUndecided => serve tnet tnow sd rd tpush 40 undecided_routes timeout (st_init n)
-  | KMatchRead => serve tnet tnow sd rd tpush 40 matchread_routes timeout (st_init n)
-  | KNonTermUndecided => serve tnet tnow sd rd tpush 40 nonterm_undecided_routes timeout (st_init n)
+  | KUndecided => serve tnet tnow sd rd tpush (need_rs undecided_routes) undecided_routes timeout (st_init n)
+  | KMatchRead => serve tnet tnow sd rd tpush (need_rs matchread_routes) matchread_routes timeout (st_init n)
+  | KNonTermUndecided => serve tnet tnow sd rd tpush (need_rs nonterm_undecided_routes) nonterm_undecided_routes timeout (st_init n)
   | KEmptyFbRead =>
-      compile tnet tnow sd rd tpush 40 0 [] timeout
-        (chain tnet tnow rd tpush (compile tnet tnow sd rd tpush 40) 0 0 [HCons 2] (fun s => Cont s)) (st_init n)
+      compile tnet tnow sd rd tpush (need_rs []) 0 [] timeout
+        (chain tnet tnow rd tpush (compile tnet tnow sd rd tpush (need_rs [])) 0 0 [HCons 2] (fun s => Cont s)) (st_init n)
   end.
 
 Fixpoint has_run (l : list ev) : bool := match l with [] => false | ERun _ _ _ :: _ => true | _ :: r => has_run r end.
